@@ -112,7 +112,7 @@ static bool _process_send(Device * dev, Action *act, ExecCtx *e);
 static bool _process_delay(Device * dev, Action *act, ExecCtx *e,
         struct timeval *timeout);
 static int _match_name(Device * dev, void *key);
-static bool _handle_read(Device * dev);
+static bool _handle_read(Device * dev, int *nread);
 static bool _handle_write(Device * dev);
 static void _process_action(Device * dev, struct timeval *timeout);
 static bool _timeout(struct timeval *timestamp, struct timeval *timeout,
@@ -1482,7 +1482,7 @@ void dev_initial_connect(void)
 /*
  * Select says device is ready for reading.
  */
-static bool _handle_read(Device * dev)
+static bool _handle_read(Device * dev, int *nread)
 {
     int n;
     int dropped;
@@ -1498,6 +1498,7 @@ static bool _handle_read(Device * dev)
     }
     if (dropped > 0)
         err(false, "%s lost %d chars due to buffer wrap", dev->name, dropped);
+    *nread = n;
     return false;
 err:
     return true;
@@ -1561,10 +1562,12 @@ _handle_ready_device(Device *dev, short flags)
     }
     /* ready for reading */
     if (flags & XPOLLIN) {
-        if (_handle_read(dev))
+        int n;
+
+        if (_handle_read(dev, &n))
             goto ioerr;
         if (dev->preprocess != NULL)
-            dev->preprocess(dev);   /* preprocess input, e.g. telnet escapes */
+            dev->preprocess(dev, n);   /* preprocess new input, e.g. telnet escapes */
     }
 success:
     return false;
